@@ -80,6 +80,8 @@ fn voting_thread(
                 tracks,
                 monitor,
             } => {
+                #[cfg(feature = "similari_verif")]
+                crate::verif::point("vote.job.begin", scene_id);
                 let candidates_num = tracks.len();
                 let tracks_num = {
                     let store = store.read().expect("Access to store must always succeed");
@@ -142,10 +144,14 @@ fn voting_thread(
                 if let Err(e) = res {
                     warn!("Unable to send results to a caller, likely the caller already closed the channel. Error is: {:?}", e);
                 }
+                #[cfg(feature = "similari_verif")]
+                crate::verif::point("vote.after_send", scene_id);
                 let (lock, cvar) = &*monitor;
                 let mut lock = lock.lock().unwrap();
                 *lock -= 1;
                 cvar.notify_one();
+                #[cfg(feature = "similari_verif")]
+                crate::verif::point("vote.monitor.dec", scene_id);
             }
             VotingCommands::Exit => break,
         }
@@ -239,6 +245,8 @@ impl BatchSort {
             Mutex::new(batch_request.batch_size()),
             Condvar::new(),
         )));
+        #[cfg(feature = "similari_verif")]
+        crate::verif::point("batch.begin", batch_request.batch_size() as u64);
 
         for (i, (scene_id, bboxes)) in batch_request.get_batch().iter().enumerate() {
             let mut rng = rand::thread_rng();
@@ -286,6 +294,8 @@ impl BatchSort {
                     tracks,
                 })
                 .expect("Sending voting request to voting thread must not fail");
+            #[cfg(feature = "similari_verif")]
+            crate::verif::point("batch.dispatched", *scene_id);
         }
     }
 
